@@ -35,6 +35,9 @@ def plan(tier, seed):
     cases += rowlib.gen_cases(G.marker_collisions(rng, 60 if q else 600), 8, CFGS, "marker")
     cases += rowlib.gen_cases(G.heavy_unbalanced(rng, 24 if q else 200), 8, CFGS, "heavy")
     cases += rowlib.gen_cases(G.spectator_laden(rng, 32 if q else 400), 8, CFGS, "spect")
+    giant = [("giant_%d" % n, "C" * n + "O>>" + "C" * n + "OCO") for n in ((1001, 1300) if q else (999, 1000, 1001, 1300, 2100))]
+    giant += [("giant_bal_%d" % n, "C" * n + "O.C=O>>" + "C" * n + "OCO") for n in (1001,)]
+    cases += rowlib.gen_cases(giant, 2, CFGS[:1], "giant")
     nj = rowlib.corpus_cases(rng, 24 if q else 200, 12,
                              [{"batch_size": None, "threshold": 0, "n_jobs": 4}], tag="nj4")
     shards = rowlib.spread(cases, 16 if q else 48)
@@ -92,7 +95,13 @@ def work(shard, res, tier, seed):
         case = {"tag": "replay", "inputs": v["inputs"], "cfg": v.get("cfg")}
         judge(case, rowlib.run_case(case), res)
         return
-    for case in shard["cases"]:
+    for ci, case in enumerate(shard["cases"]):
+        if ci == 0:
+            # the same Balancer object was used with another threshold before (legitimate use); the judged
+            # calls below run with the default threshold again
+            pre = {"tag": "excursion", "inputs": case["inputs"][:4], "cfg": dict(case.get("cfg") or {}, threshold=0.99)}
+            rowlib.run_case(pre)
+            res.count("threshold_excursions")
         out = rowlib.run_case(case)
         for m in out["missing_hooks"]:
             res.count("hook_missing:" + m)
